@@ -191,6 +191,7 @@ type randomDriver struct {
 	nLO     int
 
 	nameByFile map[int]string // last name under which a file was opened
+	retry      *lockRetry     // a failed initial LOCK that the client may try again
 }
 
 func (d *randomDriver) nameOf(fh int) string { return d.nameByFile[fh] }
@@ -563,6 +564,25 @@ func (d *randomDriver) step() {
 		o := d.oo(c)
 		l := d.lo(c)
 		f := d.anyOpen(o)
+		if rt := d.retry; rt != nil && d.pick(2) == 0 {
+			// The initial LOCK (open_to_lock_owner) of a lock-owner on a
+			// file failed: the client has no lock state id for the file
+			// and tries again with the open state id (same range if it
+			// was denied, so that it succeeds once the conflict is gone).
+			d.retry = nil
+			c, o, l, f = rt.c, rt.o, rt.l, rt.f
+			r := rLockNew(f.fh, f.t, f.q, nxt(o.seq), c.cid, l.key, nxt(l.seq), "R", 0, 1)
+			if rt.r.Lenk == "norm" || rt.r.Lenk == "eof" {
+				r.S, r.E, r.Lenk, r.Lt = rt.r.S, rt.r.E, rt.r.Lenk, rt.r.Lt
+			} else {
+				d.rangeArgs(&r)
+			}
+			if r.Lt == "BAD" {
+				r.Lt = "W"
+			}
+			d.lockDone(c, o, l, f, nil, r)
+			return
+		}
 		if f == nil {
 			return
 		}
@@ -590,26 +610,7 @@ func (d *randomDriver) step() {
 		}
 		d.rangeArgs(&r)
 		d.perturb(&r)
-		rep, _ := e.do(r)
-		rc := r
-		l.last = &rc
-		if r.NewLo {
-			afterOO(o, r, rep)
-		}
-		if completes(rep.St) && (r.Lseq == nxt(l.seq) || (r.NewLo && len(l.files) == 0)) {
-			l.seq = r.Lseq
-			l.lastDone = &rc
-		}
-		if rep.St == "OK" {
-			if r.NewLo {
-				l.files[lockKey(f.fh, o.key)] = &cliLock{fh: f.fh, t: rep.T, q: rep.Q, ok: o.key}
-				if f.share == 3 && d.pick(3) == 0 {
-					d.downUp(c, o, f)
-				}
-			} else if lk != nil && rep.T == lk.t {
-				lk.q = rep.Q
-			}
-		}
+		d.lockDone(c, o, l, f, lk, r)
 	case k < 68:
 		l := d.lo(c)
 		lk := d.anyLock(l)
@@ -766,6 +767,42 @@ func (d *randomDriver) idle() {
 				c.cid, c.confirmed = 0, false
 				c.reset()
 			}
+		}
+	}
+}
+
+// lockRetry remembers a failed initial LOCK of a lock-owner on a file.
+type lockRetry struct {
+	c *client
+	o *cliOO
+	l *cliLO
+	f *cliOpen
+	r Req
+}
+
+// lockDone sends a LOCK request and updates the client's view.
+func (d *randomDriver) lockDone(c *client, o *cliOO, l *cliLO, f *cliOpen, lk *cliLock, r Req) {
+	rep, _ := d.e.do(r)
+	rc := r
+	l.last = &rc
+	if r.NewLo {
+		afterOO(o, r, rep)
+	}
+	if completes(rep.St) && (r.Lseq == nxt(l.seq) || (r.NewLo && len(l.files) == 0)) {
+		l.seq = r.Lseq
+		l.lastDone = &rc
+	}
+	if r.NewLo && (rep.St == "DENIED" || rep.St == "INVAL" || rep.St == "BAD_RANGE") {
+		d.retry = &lockRetry{c: c, o: o, l: l, f: f, r: r}
+	}
+	if rep.St == "OK" {
+		if r.NewLo {
+			l.files[lockKey(f.fh, o.key)] = &cliLock{fh: f.fh, t: rep.T, q: rep.Q, ok: o.key}
+			if f.share == 3 && d.pick(3) == 0 {
+				d.downUp(c, o, f)
+			}
+		} else if lk != nil && rep.T == lk.t {
+			lk.q = rep.Q
 		}
 	}
 }
